@@ -29,6 +29,10 @@ class C12(SessionCheck):
                     out.append({'kind': 'e2e', 'life': True, 'sc': {'mode': 'close', 'transport': tr, 'how': how, 'inflight': infl,
                                                                      'profile': rng.choice(SG.PROFILES)}})
             out.append({'kind': 'e2e', 'life': True, 'sc': {'mode': 'close', 'transport': tr, 'how': 'with', 'no_close_reply': True}})
+            # closing while the worker is inside a write to a peer that no longer reads (connect timeout 3 s bounds the write)
+            if tier == 'thorough' or tr != 'ssh':
+                out.append({'kind': 'e2e', 'life': True, 'sc': {'mode': 'close', 'transport': tr, 'how': 'close_session', 'blocked_writer': 24 * 1024 * 1024,
+                                                                 'worker_deadline': 6.5}})
             for what in ('bad-hello', 'close-at-once'):
                 out.append({'kind': 'e2e', 'life': True, 'sc': {'mode': 'failed-hello', 'transport': tr, 'what': what, 'timeout': 0.6}})
             if tr == 'ssh':
@@ -58,7 +62,7 @@ class C12(SessionCheck):
                 if io.get('connected_after'):
                     return ('C12:still-connected' + key, 'session reports connected after close (%s)' % io.get('close'))
                 if io.get('worker_alive'):
-                    return ('C12:worker-alive' + key, 'session thread still alive 1.5 s after close')
+                    return ('C12:worker-alive' + key, 'session thread still alive %.1f s after close' % io.get('worker_deadline', 1.5))
                 if not io.get('eof_seen'):
                     return ('C12:peer-sees-no-eof' + key, 'the peer never saw the connection closed')
                 if io.get('listener_calls_after_close'):
